@@ -32,7 +32,7 @@ TYPES = ["gene", "Gene", "exon", "CDS"]
 
 def budget(tier):
     if tier == "quick":
-        return {"runs": 600, "wall": 50, "chunk": 6}
+        return {"runs": 2400, "wall": 50, "chunk": 6}
     return {"runs": 60000, "wall": 1500, "chunk": 8}
 
 
